@@ -59,6 +59,7 @@ func NewRunner(st *backends.Stack) *Runner {
 	}
 	m := NewModel(st.Opts.AutoBucket, single)
 	m.NoVer = st.Opts.NoVersioning || st.Kind != backends.Mem
+	m.Hier = st.Kind.IsFs()
 	return &Runner{St: st, M: m}
 }
 
@@ -397,6 +398,18 @@ func eq(a, b []string) bool {
 	return true
 }
 
+// expectRefused: a client error with an error document (the statement does not name the
+// code), never a panic, a 5xx or an acknowledgement.
+func expectRefused(resp *s3x.Resp, what string) []Disc {
+	if resp.Panic != "" {
+		return fail("panic", "%s: %s at %s", what, resp.Panic, resp.PanicSite)
+	}
+	if resp.Status < 400 || resp.Status > 499 || resp.ErrCode() == "" {
+		return fail("conflicting-key-not-refused", "%s: want a 4xx error document, got %s", what, resp)
+	}
+	return nil
+}
+
 func (r *Runner) stepPut(op Op) []Disc {
 	m := r.M
 	meta := metaMap(op.Meta)
@@ -411,6 +424,13 @@ func (r *Runner) stepPut(op Op) []Disc {
 			bm[k] = v
 		}
 		res, err := r.St.Backend.PutObject(op.B, op.Key, bm, bytes.NewReader(op.Body), int64(len(op.Body)))
+		if m.Hier && mb.Conflicts(op.Key) {
+			// outside the file system backends' key domain: must be refused and change nothing
+			if err == nil {
+				return fail("conflicting-key-accepted", "Backend.PutObject(%s,%s) succeeded although the key collides with a live key's file or directory", op.B, op.Key)
+			}
+			return nil
+		}
 		if err != nil {
 			return fail("api-put-failed", "Backend.PutObject(%s,%s): %v", op.B, op.Key, err)
 		}
@@ -437,6 +457,9 @@ func (r *Runner) stepPut(op Op) []Disc {
 		if mb == nil {
 			return expectErr(resp, "POST", 404, "NoSuchBucket", "form upload into absent bucket")
 		}
+		if m.Hier && mb.Conflicts(op.Key) {
+			return expectRefused(resp, "form upload to a key that collides with a live key's file or directory")
+		}
 		if d := expectStatus(resp, 200, "browser form upload"); d != nil {
 			return d
 		}
@@ -450,6 +473,9 @@ func (r *Runner) stepPut(op Op) []Disc {
 	mb := m.ensure(op.B)
 	if mb == nil {
 		return expectErr(resp, "PUT", 404, "NoSuchBucket", "put into absent bucket")
+	}
+	if m.Hier && mb.Conflicts(op.Key) {
+		return expectRefused(resp, "PUT of a key that collides with a live key's file or directory")
 	}
 	if d := expectStatus(resp, 200, "put object"); d != nil {
 		return d
@@ -486,6 +512,9 @@ func (r *Runner) stepCopy(op Op) []Disc {
 	sv := sb.Live(op.SKey)
 	if sv == nil {
 		return expectErr(resp, "PUT", 404, "NoSuchKey", "copy of a key that is not live")
+	}
+	if m.Hier && db.Conflicts(op.Key) {
+		return expectRefused(resp, "copy onto a key that collides with a live key's file or directory")
 	}
 	if d := expectStatus(resp, 200, "copy object"); d != nil {
 		return d
